@@ -23,8 +23,8 @@ Ev == Rec[l]
 Report(reason) == PrintT(<<"BAD", ToJson([id |-> curid, line |-> l, reason |-> reason, phase |-> rphase, pos |-> rpos])>>)
 
 TrStream == /\ IsEvent("stream")
-            /\ bytes' = Ev.bytes /\ size' = Ev.size /\ rpos' = 0 /\ rphase' = "len" /\ rlen' = 0 /\ rrt' = -1
-            /\ delivered' = 0 /\ calls' = 0 /\ bad' = "" /\ curid' = Ev.id
+            /\ bytes' = Ev.bytes /\ size' = Ev.size /\ rpos' = 0 /\ rphase' = "len" /\ need' = 2 /\ rlen' = 0
+            /\ rrt' = -1 /\ rdt' = -1 /\ delivered' = 0 /\ calls' = 0 /\ bad' = "" /\ curid' = Ev.id
 
 PropProblem(ev) ==
   IF ev.at < rpos THEN "prop:offset-moved-backwards"
@@ -35,9 +35,7 @@ PropProblem(ev) ==
 ShapeProblem(ev) ==
   IF ev.at # rpos THEN "offset-differs-from-model"
   ELSE IF rphase = "stopped" THEN "read-after-the-model-stopped"
-  ELSE IF rphase = "len" /\ ev.n # 2 THEN "length-field-not-read-as-2-bytes"
-  ELSE IF rphase \in {"rtype", "dtype"} /\ ev.n # 1 THEN "type-byte-not-read-as-1-byte"
-  ELSE IF rphase = "payload" /\ ev.n # rlen - 4 THEN "payload-not-read-as-len-minus-4"
+  ELSE IF ev.n # need THEN "request-size-differs-from-model:" \o rphase
   ELSE ""
 
 TrRead == /\ IsEvent("read")
@@ -45,7 +43,7 @@ TrRead == /\ IsEvent("read")
              ELSE LET p == PropProblem(Ev)  s == ShapeProblem(Ev) IN
                   IF p # "" THEN bad' = p /\ Report(p) /\ UNCHANGED <<rvars, curid>>
                   ELSE IF s # "" THEN bad' = s /\ Report(s) /\ UNCHANGED <<rvars, curid>>
-                  ELSE /\ \/ ReadLen(Ev.got) \/ ReadRType(Ev.got) \/ ReadDType(Ev.got) \/ ReadPayload(Ev.n, Ev.got)
+                  ELSE /\ ReadStep(Ev.n, Ev.got)
                        /\ UNCHANGED <<bad, curid>>
 TrSeek == /\ IsEvent("seek")
           /\ IF bad # "" THEN TRUE ELSE Report("seek-during-parse")
